@@ -15,6 +15,8 @@ import (
 	"time"
 
 	sdkmath "cosmossdk.io/math"
+	"cosmossdk.io/store/prefix"
+	storetypes "cosmossdk.io/store/types"
 	abci "github.com/cometbft/cometbft/abci/types"
 	sdk "github.com/cosmos/cosmos-sdk/types"
 	authtypes "github.com/cosmos/cosmos-sdk/x/auth/types"
@@ -29,8 +31,11 @@ type c09bState struct {
 	rsv, lcu, scu, lco, sli [2]sdkmath.Int
 }
 
+// one tracer (one PerpBacking machine) per perpetual pool: assets 0 = uusdc, 1 = the pool's trading asset
 type c09bTracer struct {
 	x      *lRun
+	pool   uint64 // amm pool id
+	trade  string // the pool's trading asset
 	prev   map[string]perptypes.MTP
 	last   c09bState
 	init   string
@@ -43,7 +48,36 @@ type c09bTracer struct {
 	closes int
 }
 
-func c09bDenoms() [2]string { return [2]string{USDC, ATOM} }
+func (c *c09bTracer) denoms() [2]string { return [2]string{USDC, c.trade} }
+
+// the MTPs of this tracer's pool
+func (c *c09bTracer) mtps(ctx sdk.Context) map[string]perptypes.MTP {
+	out := map[string]perptypes.MTP{}
+	for _, m := range c.x.w.App.PerpetualKeeper.GetAllMTPs(ctx) {
+		if m.AmmPoolId == c.pool {
+			out[fmt.Sprintf("%s/%d", m.Address, m.Id)] = m
+		}
+	}
+	return out
+}
+
+// the funding store entries of one pool (the stored value does not name its pool: the key does, types.GetFundingRateKey)
+func c09bFundingOf(w *World, ctx sdk.Context, pool uint64) []perptypes.FundingRateBlock {
+	st := prefix.NewStore(ctx.KVStore(w.App.GetKey(perptypes.StoreKey)), perptypes.FundingRatePrefix)
+	it := storetypes.KVStorePrefixIterator(st, nil)
+	defer it.Close()
+	var out []perptypes.FundingRateBlock
+	for ; it.Valid(); it.Next() {
+		k := it.Key()
+		if len(k) != 16 || sdk.BigEndianToUint64(k[8:]) != pool {
+			continue
+		}
+		var f perptypes.FundingRateBlock
+		w.App.AppCodec().MustUnmarshal(it.Value(), &f)
+		out = append(out, f)
+	}
+	return out
+}
 
 func (c *c09bTracer) read() c09bState {
 	w := c.x.w
@@ -52,11 +86,11 @@ func (c *c09bTracer) read() c09bState {
 	for i := range st.rsv {
 		st.rsv[i], st.lcu[i], st.scu[i], st.lco[i], st.sli[i] = sdkmath.ZeroInt(), sdkmath.ZeroInt(), sdkmath.ZeroInt(), sdkmath.ZeroInt(), sdkmath.ZeroInt()
 	}
-	ap, _ := w.App.AmmKeeper.GetPool(ctx, c.x.m.OraclePool)
+	ap, _ := w.App.AmmKeeper.GetPool(ctx, c.pool)
 	for _, a := range ap.PoolAssets {
 		st.rsv[c09Asset(a.Token.Denom)] = a.Token.Amount
 	}
-	pp, found := w.App.PerpetualKeeper.GetPool(ctx, c.x.m.OraclePool)
+	pp, found := w.App.PerpetualKeeper.GetPool(ctx, c.pool)
 	if found {
 		for _, a := range pp.PoolAssetsLong {
 			st.lcu[c09Asset(a.AssetDenom)] = a.Custody
@@ -85,11 +119,9 @@ func (st c09bState) longOI() sdkmath.Int {
 	return oi
 }
 
-func newC09bTracer(x *lRun) *c09bTracer {
-	c := &c09bTracer{x: x, prev: map[string]perptypes.MTP{}}
-	for _, m := range x.w.App.PerpetualKeeper.GetAllMTPs(x.w.QCtx()) {
-		c.prev[fmt.Sprintf("%s/%d", m.Address, m.Id)] = m
-	}
+func newC09bTracer(x *lRun, pool uint64) *c09bTracer {
+	c := &c09bTracer{x: x, pool: pool, trade: x.tradeOfPool(pool)}
+	c.prev = c.mtps(x.w.QCtx())
 	c.last = c.read()
 	c.init = c.last.obs()
 	return c
@@ -108,7 +140,7 @@ func c09bZ(v sdkmath.Int) string { return zstr(v.BigInt()) }
 func (c *c09bTracer) fstore() (string, int64) {
 	ctx := c.x.w.QCtx()
 	cur := ctx.BlockHeight()
-	all := c.x.w.App.PerpetualKeeper.GetAllFundingRate(ctx)
+	all := c09bFundingOf(c.x.w, ctx, c.pool)
 	var es []string
 	add := func(f perptypes.FundingRateBlock) {
 		es = append(es, fmt.Sprintf("(%d, (%s, %s))", f.BlockHeight, zstr(f.FundingAmountLong.BigInt()), zstr(f.FundingAmountShort.BigInt())))
@@ -168,13 +200,10 @@ func (c *c09bTracer) item(settle bool, m perptypes.MTP, take, rev, ftake sdkmath
 func (c *c09bTracer) step(ops []BankOp, kind string, res TxResult) {
 	w := c.x.w
 	ctx := w.QCtx()
-	cur := map[string]perptypes.MTP{}
-	for _, m := range w.App.PerpetualKeeper.GetAllMTPs(ctx) {
-		cur[fmt.Sprintf("%s/%d", m.Address, m.Id)] = m
-	}
+	cur := c.mtps(ctx)
 	st := c.read()
 	var units []string
-	ap, _ := w.App.AmmKeeper.GetPool(ctx, c.x.m.OraclePool)
+	ap, _ := w.App.AmmKeeper.GetPool(ctx, c.pool)
 	poolAddr := ap.Address
 	params := w.App.PerpetualKeeper.GetParams(ctx)
 	fundAddr := params.BorrowInterestPaymentFundAddress
@@ -186,7 +215,7 @@ func (c *c09bTracer) step(ops []BankOp, kind string, res TxResult) {
 	}
 	sentTo := map[string]sdkmath.Int{} // owner/denom -> amount sent by the pool
 	for _, o := range ops {
-		if o.Kind != "send" || o.From != poolAddr || (o.Denom != USDC && o.Denom != ATOM) {
+		if o.Kind != "send" || o.From != poolAddr || (o.Denom != USDC && o.Denom != c.trade) {
 			continue
 		}
 		switch o.To {
@@ -342,8 +371,8 @@ func (c *c09bTracer) step(ops []BankOp, kind string, res TxResult) {
 			if ftake.IsNegative() {
 				ftake = zero
 			}
-			ghost := perptypes.MTP{Position: perptypes.Position_LONG, CustodyAsset: c09bDenoms()[d], CollateralAsset: c09bDenoms()[d], LiabilitiesAsset: USDC,
-				TradingAsset: ATOM, AmmPoolId: c.x.m.OraclePool, Custody: zero, Liabilities: zero}
+			ghost := perptypes.MTP{Position: perptypes.Position_LONG, CustodyAsset: c.denoms()[d], CollateralAsset: c.denoms()[d], LiabilitiesAsset: USDC,
+				TradingAsset: c.trade, AmmPoolId: c.pool, Custody: zero, Liabilities: zero}
 			fund := toFund[d]
 			if fund.GT(left) {
 				fund = left
@@ -383,7 +412,7 @@ func (c *c09bTracer) probes() {
 		return
 	}
 	qc := w.QCtx().WithBlockHeight(h)
-	all := k.GetAllFundingRate(qc)
+	all := c09bFundingOf(w, qc, c.pool)
 	if len(all) == 0 {
 		return
 	}
@@ -410,10 +439,15 @@ func (c *c09bTracer) probes() {
 		if start < 0 {
 			continue
 		}
-		l, s := k.GetFundingDistributionValue(qc, uint64(start), c.x.m.OraclePool)
+		l, s := k.GetFundingDistributionValue(qc, uint64(start), c.pool)
 		c.fdvs = append(c.fdvs, fmt.Sprintf("mkBP %s %d %d %s %s", entries(start, h), start, h, zstr(l.BigInt()), zstr(s.BigInt())))
 	}
-	ms := k.GetAllMTPs(qc)
+	var ms []perptypes.MTP
+	for _, mtp := range k.GetAllMTPs(qc) {
+		if mtp.AmmPoolId == c.pool {
+			ms = append(ms, mtp)
+		}
+	}
 	for i, mtp := range ms {
 		if i >= 2 {
 			break
@@ -459,20 +493,22 @@ func (c *c09bTracer) probes() {
 func c09bExitTo(x *lRun, op lOp) (TxResult, sdkmath.Int) {
 	w, m := x.w, x.m
 	ctx := w.QCtx()
-	pool, _ := w.App.AmmKeeper.GetPool(ctx, m.OraclePool)
-	pp, _ := w.App.PerpetualKeeper.GetPool(ctx, m.OraclePool)
-	_, cust, _, _ := pp.GetPerpetualPoolBalances(ATOM)
+	pid, trade := x.oraclePool(x.qOf(op)), x.trade(x.qOf(op))
+	pool, _ := w.App.AmmKeeper.GetPool(ctx, pid)
+	pp, _ := w.App.PerpetualKeeper.GetPool(ctx, pid)
+	_, cust, _, _ := pp.GetPerpetualPoolBalances(trade)
 	ra := sdkmath.ZeroInt()
 	for _, a := range pool.PoolAssets {
-		if a.Token.Denom == ATOM {
+		if a.Token.Denom == trade {
 			ra = a.Token.Amount
 		}
 	}
 	cm := w.App.CommitmentKeeper.GetCommitments(ctx, m.Users[op.U%len(m.Users)])
 	have := cm.GetCommittedAmountForDenom(pool.TotalShares.Denom)
 	sh := sdkmath.ZeroInt()
-	if ra.IsPositive() && ra.GT(cust.Add(bigOf(op.Amt))) {
-		sh = pool.TotalShares.Amount.Mul(ra.Sub(cust).Sub(bigOf(op.Amt))).Quo(ra)
+	margin := x.amtOf(op, trade)
+	if ra.IsPositive() && ra.GT(cust.Add(margin)) {
+		sh = pool.TotalShares.Amount.Mul(ra.Sub(cust).Sub(margin)).Quo(ra)
 	}
 	if sh.GT(have) {
 		sh = have
@@ -579,11 +615,38 @@ func c09bCorpus() []lHist {
 			{Op: "perp_close", U: 1, Idx: 0, Rel: 5},
 			{Op: "perp_close", U: 2, Idx: 0, Rel: 5},
 		}},
+		// the same edge on the SECOND pool (18-decimals trading asset) while the first pool holds positions of the same owners:
+		// the hooks must test the pool that moved against ITS custody
+		{Two: true, Ops: []lOp{
+			{Op: "join", U: 4, Pool: 0, Dir: 1, Amt: "400000000000", Q: 1},
+			{Op: "perp_open", U: 1, Dir: 2, Amt: "2000000000", Lev: "3"},
+			{Op: "perp_open", U: 1, Dir: 2, Amt: "2000000000", Lev: "3", Q: 1},
+			{Op: "perp_open", U: 2, Dir: 1, Amt: "30000000", Lev: "2", Q: 1},
+			{Op: "perp_open", U: 2, Dir: 1, Amt: "30000000", Lev: "2"},
+			{Op: "blocks", N: 2, DT: 3700},
+			{Op: "c09_exit_to", U: 0, Amt: "1000", Q: 1},
+			{Op: "c09_exit_to", U: 4, Amt: "1000", Q: 1},
+			{Op: "swap_out", U: 3, V: 3, Pool: 0, Dir: 0, Amt: "5000", Q: 1},
+			{Op: "swap_hop", U: 3, Dir: 5, Amt: "100000000"}, // uatom -> uusdc -> aweth: takes the custody asset out of the second pool through the first
+			{Op: "blocks", N: 1, DT: 5},
+			{Op: "exit", U: 4, Pool: 0, Dir: 0, Rel: 3, Q: 1},
+			{Op: "exit", U: 4, Pool: 0, Dir: 2, Rel: 2, Q: 1},
+			{Op: "perp_close_positions", U: 3, Idx: 0, Dir: 0, N: 8},
+			{Op: "blocks", N: 1, DT: 86400},
+			{Op: "perp_close", U: 1, Idx: 1, Rel: 2},
+			{Op: "swap_out", U: 3, V: 3, Pool: 0, Dir: 0, Amt: "700000000", Q: 1},
+			{Op: "blocks", N: 1, DT: 5},
+			{Op: "perp_close", U: 1, Idx: 0, Rel: 5},
+			{Op: "perp_close", U: 1, Idx: 0, Rel: 5},
+			{Op: "perp_close", U: 2, Idx: 0, Rel: 5},
+			{Op: "perp_close", U: 2, Idx: 0, Rel: 5},
+		}},
 	}
 }
 
 const c09bCoqHeader = "From Coq Require Import ZArith List Bool.\nFrom Elys Require Import Base.Res Base.Fn Models.SumLedger Models.PerpLedger Run.PerpLedgerRun Models.PerpBacking Run.PerpBackingRun.\nImport ListNotations.\nOpen Scope Z_scope.\n"
-const c09bCoqFooter = "Definition M := Eval vm_compute in (mismatches (map fst cases) ++ bmismatches (map snd cases)).\nPrint M.\n"
+// one backing case per perpetual pool of the history (the second pool's case id is the history id + 1000000)
+const c09bCoqFooter = "Definition M := Eval vm_compute in (mismatches (map fst cases) ++ bmismatches (flat_map snd cases)).\nPrint M.\n"
 
 func (c *c09bTracer) finish(col *Collector) {
 	col.mu.Lock()
